@@ -17,7 +17,7 @@ open CC.Spec.Seq (SOp Out)
 
 /-- one push/pop/peek/size call refines the ideal stack (which is told whether a push was blocked);
 an erroring call — pop/peek on the empty stack, a blocked push — leaves the whole state unchanged -/
-theorem step_refines (s : Stack) (op : SOp) (m : Mem) (hinv : s.Inv) (hlive : 0 < m.live) :
+theorem step_refines (s : Stack) (op : SOp) (m : Mem) (hinv : s.Inv) :
     (s.step op m).1 = (Spec.Seq.sstep s.abs op (s.step op m).1.blocked).1 ∧
     (s.step op m).2.1.abs = (Spec.Seq.sstep s.abs op (s.step op m).1.blocked).2 ∧
     (s.step op m).2.1.v.grow = s.v.grow ∧
@@ -26,7 +26,7 @@ theorem step_refines (s : Stack) (op : SOp) (m : Mem) (hinv : s.Inv) (hlive : 0 
     (∀ st, (s.step op m).1.st = some st → st ≠ .ok → (s.step op m).2.1.v = s.v) := by
   cases op with
   | push x =>
-    obtain ⟨sp, sl, sf⟩ := Arr.add_spec s.v x m hinv hlive
+    obtain ⟨sp, sl, sf⟩ := Arr.add_spec s.v x m hinv
     simp only [Stack.step, Stack.push, Spec.Seq.sstep, Arr.blocked_mk, Stack.abs, Stack.Inv]
     rcases sp with ⟨ok, habs, hg⟩ | ⟨hb, hsame⟩
     · simp only [ok, Spec.Seq.push, Spec.Seq.add]
@@ -51,14 +51,14 @@ theorem step_refines (s : Stack) (op : SOp) (m : Mem) (hinv : s.Inv) (hlive : 0 
 
 /-- **C09, all interleavings**: any push/pop/peek/size history on the concrete stack reports exactly
 what the ideal LIFO list reports and ends with the same content -/
-theorem history_refines (ops : List SOp) (s : Stack) (m : Mem) (hinv : s.Inv) (hlive : 0 < m.live) :
+theorem history_refines (ops : List SOp) (s : Stack) (m : Mem) (hinv : s.Inv) :
     (s.run ops m).1 = (Spec.Seq.srun s.abs ops ((s.run ops m).1.map Out.blocked)).1 ∧
     (s.run ops m).2.1.abs = (Spec.Seq.srun s.abs ops ((s.run ops m).1.map Out.blocked)).2 ∧
     (s.run ops m).2.1.Inv ∧ (s.run ops m).2.2.live = m.live ∧ (s.run ops m).2.2.fault = m.fault := by
   induction ops generalizing s m with
   | nil => exact ⟨rfl, rfl, hinv, rfl, rfl⟩
   | cons op ops ih =>
-    obtain ⟨s1, s2, s3, s4, s5, s6, _⟩ := step_refines s op m hinv hlive
+    obtain ⟨s1, s2, s3, s4, s5, s6, _⟩ := step_refines s op m hinv
     obtain ⟨i1, i2, i3, i5, i6⟩ := ih (s.step op m).2.1 (s.step op m).2.2 s4 (by omega)
     simp only [Stack.run, Spec.Seq.srun, List.map_cons, List.headD_cons, List.tail_cons]
     rw [← s2]
@@ -66,10 +66,10 @@ theorem history_refines (ops : List SOp) (s : Stack) (m : Mem) (hinv : s.Inv) (h
 
 /-- a push succeeds whenever the allocator does not refuse (and the capacity limit of 2^64−2 slots
 is not reached) -/
-theorem push_succeeds (s : Stack) (x : Nat) (m : Mem) (hinv : s.Inv) (hlive : 0 < m.live)
+theorem push_succeeds (s : Stack) (x : Nat) (m : Mem) (hinv : s.Inv)
     (halloc : s.v.size = s.v.capacity → m.alloc.1 = true) (hmax : ¬ s.v.AtLimit) :
     (s.push x m).1 = .ok ∧ (s.push x m).2.1.abs = s.abs ++ [x] := by
-  rcases (Arr.add_spec s.v x m hinv hlive).1 with ⟨ok, habs, _⟩ | ⟨⟨hb, hfull⟩, _⟩
+  rcases (Arr.add_spec s.v x m hinv).1 with ⟨ok, habs, _⟩ | ⟨⟨hb, hfull⟩, _⟩
   · exact ⟨ok, habs⟩
   · rcases hb with ⟨_, h⟩ | ⟨_, h⟩
     · rw [halloc hfull] at h; simp at h
@@ -201,7 +201,7 @@ theorem new_ledger (cap : Nat) (grow : Nat → Nat) (exGe : Nat → Bool) (m : M
   Stack.new_spec cap grow exGe m
 
 theorem destroy_ledger (s : Stack) (m : Mem) (hlive : 3 ≤ m.live) :
-    (s.destroy m).live = m.live - 3 ∧ (s.destroy m).fault = m.fault := Stack.destroy_spec s m hlive
+    (s.destroy m).live = m.live - 3 ∧ (s.destroy m).fault = m.fault := Stack.destroy_spec s m
 
 /-- **C09 from the constructor**: every interleaving on a freshly constructed stack of any accepted
 capacity and any expansion factor is LIFO -/
